@@ -384,3 +384,82 @@ Example rx_quick :
      | None => False
      end.
 Proof. vm_compute. auto. Qed.
+
+(* ================================================================================================
+   The summaries of a recovery run are truthful as well: from a truthful summary of the crash image (and
+   the premise that its slot Q, if torn, stays invalid under partial overwriting) every window of the run
+   starts from an image_ok pair, so a crash DURING recovery -- at any instant, with any tearing -- is again
+   covered by crash_trace_safe, and so is everything the recovered database does afterwards (recovery ends
+   in a protocol state with a truthful summary). repair_sem: the repair commit's slot has a valid checksum
+   and names the trees of the served commit.
+   ================================================================================================ *)
+
+Theorem recovery_images_ok :
+  forall (H : bytes -> bytes) (expect : bytes -> list (N * bytes)) (ps : N),
+    tear_resistant H -> pages_above_header expect ->
+    forall (d : dsum) (D : image) (o : roracle) (a : acc),
+      image_ok H expect ps d D -> dead H d -> rec_side_okb d o = true -> repair_sem H expect d o ->
+      recovery_run d o = Some a ->
+      chain H expect ps D (a_ws a) /\ Sem H expect ps (a_st a) (image_after D (a_ws a)).
+Proof. exact ProtocolP.recovery_chain. Qed.
+
+Theorem recovery_crash_safe :
+  forall (H : bytes -> bytes) (expect : bytes -> list (N * bytes)) (ps : N),
+    tear_resistant H -> pages_above_header expect ->
+    forall (d : dsum) (D : image) (o : roracle) (a : acc),
+      image_ok H expect ps d D -> dead H d -> rec_side_okb d o = true -> repair_sem H expect d o ->
+      recovery_run d o = Some a ->
+      forall pre w post k img,
+        a_ws a = pre ++ w :: post ->
+        CrashOf (image_after D pre) (firstn k (w_ops w)) img ->
+        crash_outcome H expect ps (w_sum w) (map abs (w_ops w)) img.
+Proof. exact ProtocolP.recovery_crash_safe. Qed.
+
+Theorem recovery_then_protocol_crash_safe :
+  forall (H : bytes -> bytes) (expect : bytes -> list (N * bytes)) (ps : N),
+    tear_resistant H -> pages_above_header expect ->
+    forall (d : dsum) (D : image) (o : roracle) (a : acc) (ss : list pstep),
+      image_ok H expect ps d D -> dead H d -> rec_side_okb d o = true -> repair_sem H expect d o ->
+      recovery_run d o = Some a ->
+      steps_okb (a_st a) ss = true -> steps_sem H expect (a_st a) (image_after D (a_ws a)) ss ->
+      forall pre w post k img,
+        a_ws a ++ all_windows (run_steps (a_st a) ss) = pre ++ w :: post ->
+        CrashOf (image_after D pre) (firstn k (w_ops w)) img ->
+        crash_outcome H expect ps (w_sum w) (map abs (w_ops w)) img.
+Proof. exact ProtocolP.recovery_then_protocol_crash_safe. Qed.
+
+(* non-vacuity: the god-byte-only crash image, full repair, under ex_expect2 *)
+Example rx_pages_above2 : pages_above_header ex_expect2.
+Proof.
+  intros s e [<- | []]. cbn [fst]. generalize (nth 8 s 0). intros x. unfold DB_HEADER_SIZE. lia.
+Qed.
+Example rx_image_ok2 : image_ok Hideal ex_expect2 ex_ps rx_d_god ex_img_god.
+Proof.
+  destruct rx_full_image_ok as [A1 A2 A3 A4 A5 A6 A7 A8 A9]. constructor.
+  - exact A1.
+  - exact A2.
+  - exact A3.
+  - exact A4.
+  - vm_compute. reflexivity.
+  - intros e He. vm_compute in He. destruct He as [<- | []]. vm_compute. reflexivity.
+  - exact A7.
+  - intros rq E. discriminate.
+  - vm_compute. reflexivity.
+Qed.
+Example rx_repair_sem : repair_sem Hideal ex_expect2 rx_d_god rx_o_full.
+Proof.
+  split; [vm_compute; reflexivity|]. split.
+  - intros img Hv. exact Hv.
+  - intros e He. vm_compute in He. destruct He as [<- | []]. vm_compute. reflexivity.
+Qed.
+Example rx_chain :
+  forall a, recovery_run rx_d_god rx_o_full = Some a ->
+  chain Hideal ex_expect2 ex_ps ex_img_god (a_ws a)
+  /\ Sem Hideal ex_expect2 ex_ps (a_st a) (image_after ex_img_god (a_ws a)).
+Proof.
+  intros a E.
+  refine (recovery_images_ok Hideal ex_expect2 ex_ps ideal_checksum_tear_resistant rx_pages_above2
+            rx_d_god ex_img_god rx_o_full a rx_image_ok2 _ _ rx_repair_sem E).
+  - intros X. discriminate X.
+  - vm_compute. reflexivity.
+Qed.
